@@ -296,6 +296,78 @@ def named(ctx):
             wrong=[(not any("unget" in x for x in pb), None)])
 
 
+def _error_handler_evaluated(ctx, f, mod, emap, ents) -> bool:
+    """R14.5, the codec error handler run as a whole from its source (sa/classeval.py) on stand-in UnicodeEncodeError objects:
+    every unencodable character of the range -- BMP, astral, written as a surrogate pair, several in a row, with and without a
+    named reference, with a legacy (semicolon-less) name -- comes out as exactly one reference that the tokenizer decodes back to
+    it, and the handler resumes at exc.end.  Tables derived from the reverse map at module level are folded first."""
+    from ..classeval import ClassEval, Record
+    r, ce = ctx.r, ctx.ce
+    over = {"_encode_entity_map": emap, "_is_ucs4": True}
+    seen_loop = False
+    for st in mod.tree.body:
+        if isinstance(st, ast.For) and "entities.items()" in norm(st.iter):
+            seen_loop = True
+        elif seen_loop and isinstance(st, ast.Assign) and len(st.targets) == 1 and isinstance(st.targets[0], ast.Name) and \
+                any(isinstance(x, ast.Name) and x.id in over for x in ast.walk(st.value)):
+            try:
+                over[st.targets[0].id] = ce.eval(st.value, mod, dict(over))
+            except NotConstant:
+                return False
+    legacy = sorted(cp for cp, nm in emap.items() if not nm.endswith(";"))
+    named = sorted(cp for cp, nm in emap.items() if nm.endswith(";") and cp < 0x10000)
+    astral = sorted(cp for cp in emap if cp > 0xFFFF)
+    if not (legacy and named and astral):
+        return False
+    A, B = chr(astral[0]), chr(astral[1])
+    pairA = chr(0xD800 + ((astral[0] - 0x10000) >> 10)) + chr(0xDC00 + ((astral[0] - 0x10000) & 0x3FF))
+    L, N, U = chr(legacy[0]), chr(named[0]), "\u4e00"
+    cases = [("x" + N + "y", 1, 2), ("x" + L + "b", 1, 2), (L + N + U, 0, 3), (U, 0, 1), (A, 0, 1), (A + B + N, 0, 3), (A + N, 0, 2), (N + A + L, 0, 3),
+             ("q" + pairA + N, 1, 4), (pairA + pairA, 0, 4), ("\U0010fffd" + U, 0, 2), (L + ";", 0, 1), (L + "b", 0, 1)]
+
+    def units(text):
+        """the characters a reader sees: a surrogate pair is one character"""
+        out, i = [], 0
+        while i < len(text):
+            if i + 1 < len(text) and 0xD800 <= ord(text[i]) <= 0xDBFF and 0xDC00 <= ord(text[i + 1]) <= 0xDFFF:
+                out.append(0x10000 + ((ord(text[i]) - 0xD800) << 10) + (ord(text[i + 1]) - 0xDC00))
+                i += 2
+            else:
+                out.append(ord(text[i]))
+                i += 1
+        return out
+    import re as _re
+    ref = _re.compile(r"&(#x[0-9a-fA-F]+|[A-Za-z][A-Za-z0-9]*);")
+    bad = []
+    try:
+        for obj, start, end in cases:
+            evl = ClassEval(ce, mod, None, {}, repo=ctx.repo, globals_override=over)
+            exc = Record(isa=("UnicodeEncodeError",), object=obj, start=start, end=end, encoding="ascii", reason="r")
+            got = evl.callf(mod, f.name, [exc])
+            want = units(obj[start:end])
+            problem = None
+            if not (isinstance(got, tuple) and len(got) == 2 and isinstance(got[0], str)):
+                problem = "returns %r" % (got,)
+            elif got[1] != end:
+                problem = "resumes at %r, not at exc.end" % (got[1],)
+            else:
+                refs = ref.findall(got[0])
+                if "".join("&%s;" % x for x in refs) != got[0]:
+                    problem = "writes %r, which is not a sequence of complete references" % got[0]
+                else:
+                    dec = [int(x[2:], 16) if x.startswith("#x") else (ord(ents[x + ";"]) if len(ents.get(x + ";", "")) == 1 else None) for x in refs]
+                    if dec != want:
+                        problem = "writes %r, which decodes to %s, for the characters %s" % (
+                            got[0], ["U+%04X" % d if d is not None else "?" for d in dec], ["U+%04X" % w for w in want])
+            if problem:
+                bad.append((obj[start:end], problem))
+    except AnalysisError:
+        return False
+    r.check("R14.5", not bad, "evaluated::error-handler", f.where,
+            "htmlentityreplace_errors: %s" % "; ".join("for %r it %s" % b for b in bad[:3]), detail={"cases": len(cases)})
+    return True
+
+
 def reverse_map(ctx, ents):
     r, ce = ctx.r, ctx.ce
     mod = ctx.repo.module("serializer.py")
@@ -343,8 +415,9 @@ def reverse_map(ctx, ents):
                 return True
         return False
     emit_loop = [n for n in ast.walk(f.node) if isinstance(n, ast.For) and isinstance(n.target, ast.Name) and uses_map(n)]
+    whole = _error_handler_evaluated(ctx, f, mod, emap, ents)
     if len(emit_loop) != 1:
-        r.idiom("R14.5", False, "emitted-form", f.where, "the loop that writes the replacement was not found")
+        r.idiom("R14.5", whole, "emitted-form", f.where, "the loop that writes the replacement was not found")
     else:
         lp = emit_loop[0]
         for label, table, exp in (("name-with-semicolon", {0xE9: "eacute;"}, "&eacute;"), ("legacy-name", {0xE9: "Eacute"}, "&Eacute;"),
